@@ -75,32 +75,58 @@ def value_text(v):
   raise AssertionError(v)
 
 
-def render(doc, salt, pkgname=None):
-  """Text of an abstract document: one statement per line (blocks: header plus one line per member)."""
-  lines = []
+DECOR = ['# a comment line', '', '  # an indented comment', '', '# another']
+
+
+def render_with_map(doc, salt, pkgname=None, decorate=False):
+  """Text of an abstract document: one statement per line (blocks: header plus one line per member).  With `decorate`,
+  comment and blank lines are put between statements and between the members of a block (the specification counts lines
+  without them): the second result maps the specification's line numbers to the real ones."""
+  lines, linemap = [], {}
+  absline = [0]
+
+  def emit(text, counted=True):
+    lines.append(text)
+    if counted:
+      absline[0] += 1
+      linemap[absline[0]] = len(lines)
+
+  def deco(k):
+    if decorate and (salt + k) % 3 == 0:
+      for j in range(1 + (salt + k) % 2):
+        emit(DECOR[(salt + k + j) % len(DECOR)], counted=False)
+
   for i, s in enumerate(doc):
     t = s['t']
+    if i > 0:
+      deco(i)
     if t == 'bind':
-      lines.append('%s%s.%s = %s' % (s['scope'] + '/' if s['scope'] else '', s['sel'], s['param'], value_text(s['val'])))
+      emit('%s%s.%s = %s' % (s['scope'] + '/' if s['scope'] else '', s['sel'], s['param'], value_text(s['val'])))
     elif t == 'macro':
-      lines.append('%s = %s' % (s['name'], value_text(s['val'])))
+      emit('%s = %s' % (s['name'], value_text(s['val'])))
     elif t == 'block':
-      lines.append('%s%s:' % (s['scope'] + '/' if s['scope'] else '', s['sel']))
-      for p, v in s['members']:
-        lines.append('  %s = %s' % (p, value_text(v)))
+      emit('%s%s:' % (s['scope'] + '/' if s['scope'] else '', s['sel']))
+      for j, (p, v) in enumerate(s['members']):
+        if decorate and (salt + i + j) % 2 == 0:
+          emit(['  # about the next member', ''][(salt + j) % 2], counted=False)
+        emit('  %s = %s' % (p, value_text(v)))
     elif t == 'import':
-      lines.append('import %s' % s['module'])
+      emit('import %s' % s['module'])
     elif t == 'include':
-      lines.append("include '%s.gin'" % (pkgname + '/p' if (s['file'] == 'p' and pkgname) else s['file']))
+      emit("include '%s.gin'" % (pkgname + '/p' if (s['file'] == 'p' and pkgname) else s['file']))
     elif t == 'syntax':
       if i > 0 and doc[i - 1]['t'] in ('block', 'bind', 'macro') and salt % 2 == 0:
         # the fault is the very first token of the line that follows a complete statement
-        lines.append(FIRST_TOKEN_FAULTS[(salt // 2 + i) % len(FIRST_TOKEN_FAULTS)])
+        emit(FIRST_TOKEN_FAULTS[(salt // 2 + i) % len(FIRST_TOKEN_FAULTS)])
       else:
-        lines.append(SYNTAX_TEXTS[(salt + i) % len(SYNTAX_TEXTS)])
+        emit(SYNTAX_TEXTS[(salt + i) % len(SYNTAX_TEXTS)])
     else:
       raise AssertionError(t)
-  return '\n'.join(lines) + '\n'
+  return '\n'.join(lines) + '\n', linemap
+
+
+def render(doc, salt, pkgname=None):
+  return render_with_map(doc, salt, pkgname)[0]
 
 
 class MemReader:
@@ -118,6 +144,9 @@ class MemReader:
     return path in self.files
 
 
+LINEMAPS = {}     # file name -> {line as the specification counts -> line in the text written for the current case}
+
+
 @contextlib.contextmanager
 def materialised(case, salt):
   """The file store of a case on disk / in memory, the readers and the search locations registered in the case's
@@ -128,6 +157,7 @@ def materialised(case, salt):
   saved_readers = list(config._FILE_READERS)
   saved_prefixes = list(config._LOCATION_PREFIXES)
   mem = MemReader()
+  LINEMAPS.clear()
   _STATE['n'] = _STATE.get('n', 0) + 1
   pkgname = 'gvparsepkg%d' % _STATE['n']          # package-relative names resolve through the Python path
   pkgroot = tempfile.mkdtemp(prefix='ginverif_pkg_')
@@ -148,7 +178,8 @@ def materialised(case, salt):
     config.register_file_reader(mem.open, mem.readable)
     expected_first = {n: (r[1] if r[0] == 'found' else None) for n, r in case['resolved'].items()}
     for loc, reader, name in case['present']:
-      text = render(case['files'][name], salt, pkgname)
+      text, lm = render_with_map(case['files'][name], salt, pkgname, decorate=bool(salt % 2))
+      LINEMAPS[name] = lm
       if expected_first.get(name) and [loc, reader, name] != list(expected_first[name]):
         text = "gvparse.f.p = 'WRONG-PLACEMENT-%s-%s'\n" % (loc, reader)      # reading this one would be a resolution error
       path = os.path.join(locpath[loc], name + '.gin')
@@ -296,11 +327,12 @@ def compare(case, obs):
   want_cfg = sorted([b['scope'], b['sel'], b['param'], list(b['val'])] for b in r['cfg'])
   if want_cfg != obs['cfg']:
     return ('applied-statements', want_cfg, obs['cfg'])
-  want_prov = sorted([b['scope'], b['sel'], b['param'], b['file'], b['line']] for b in r['prov'])
+  real = lambda f, l: LINEMAPS.get(f, {}).get(l, l)
+  want_prov = sorted([b['scope'], b['sel'], b['param'], b['file'], real(b['file'], b['line'])] for b in r['prov'])
   if want_prov != obs['prov']:
     return ('provenance', want_prov, obs['prov'])
   if r['status'] not in ('ok', 'SyntaxError'):
-    want_chain = [[f, l] for f, l in r['chain']]
+    want_chain = [[f, real(f, l)] for f, l in r['chain']]
     if want_chain != obs.get('chain'):
       return ('location-chain', want_chain, obs.get('chain'))
   if r['status'] == 'ok':
